@@ -33,6 +33,7 @@ type hookScenario struct {
 	tasks  []hookTask
 	par    bool   // tasks started simultaneously
 	via    string // "runner" | "sched" | "cli"
+	noDown []bool // per context: it has no down commands (nil: all have)
 	form   string // cli only: "" (taskctl T...), "run" (taskctl run T...), "runtask" (taskctl run task T...), "runpipeline"
 	ghost  bool   // cli only, several targets: an unknown name follows the last target
 }
@@ -52,6 +53,13 @@ func (s hookScenario) upList(c int, trace string) []string {
 		out = append(out, hookCmd(trace, tok, f))
 	}
 	return out
+}
+
+func (s hookScenario) downList(c int, trace string) []string {
+	if s.noDown != nil && s.noDown[c] {
+		return nil
+	}
+	return []string{hookCmd(trace, fmt.Sprintf("c%d.down", c), false)}
 }
 
 func (s hookScenario) upTokens(c int) []string {
@@ -82,6 +90,9 @@ func (s hookScenario) line() string {
 	extra := ""
 	if s.upCmds != nil {
 		extra += fmt.Sprintf(" upcmds=%v", s.upCmds)
+	}
+	if s.noDown != nil {
+		extra += fmt.Sprintf(" nodown=%v", s.noDown)
 	}
 	if s.form != "" || s.ghost {
 		extra += fmt.Sprintf(" form=%s ghost=%v", s.form, s.ghost)
@@ -130,8 +141,12 @@ func (s hookScenario) yaml(trace string) string {
 		for _, u := range s.upList(c, trace) {
 			ups = append(ups, fmt.Sprintf("%q", u))
 		}
-		fmt.Fprintf(&b, "  c%d:\n    up: [%s]\n    down: [%q]\n    before: [%q]\n    after: [%q]\n", c,
-			strings.Join(ups, ", "), hookCmd(trace, fmt.Sprintf("c%d.down", c), false),
+		downLine := fmt.Sprintf("    down: [%q]\n", hookCmd(trace, fmt.Sprintf("c%d.down", c), false))
+		if s.noDown != nil && s.noDown[c] {
+			downLine = ""
+		}
+		fmt.Fprintf(&b, "  c%d:\n    up: [%s]\n%s    before: [%q]\n    after: [%q]\n", c,
+			strings.Join(ups, ", "), downLine,
 			hookCmd(trace, fmt.Sprintf("c%d.before", c), false), hookCmd(trace, fmt.Sprintf("c%d.after", c), false))
 	}
 	b.WriteString("tasks:\n")
@@ -233,7 +248,7 @@ func runHookScenario(s hookScenario) hookObs {
 	ctxs := map[string]*runner.ExecutionContext{}
 	for c := range s.upFail {
 		ctxs[fmt.Sprintf("c%d", c)] = runner.NewExecutionContext(nil, "", variables.NewVariables(),
-			s.upList(c, trace), []string{hookCmd(trace, fmt.Sprintf("c%d.down", c), false)},
+			s.upList(c, trace), s.downList(c, trace),
 			[]string{hookCmd(trace, fmt.Sprintf("c%d.before", c), false)}, []string{hookCmd(trace, fmt.Sprintf("c%d.after", c), false)})
 	}
 	r, err := runner.NewTaskRunner(runner.WithContexts(ctxs))
@@ -363,7 +378,11 @@ func hookVerdict(s hookScenario, o hookObs) (string, string) {
 			}
 			lastUp = last[tok]
 		}
-		if count[cn+".down"] != 1 {
+		wantDown := 1
+		if s.noDown != nil && s.noDown[c] {
+			wantDown = 0
+		}
+		if count[cn+".down"] != wantDown {
 			if s.via == "cli" {
 				return fmt.Sprintf("context %s: down ran %d times at shutdown, expected exactly once", cn, count[cn+".down"]), "c14-down-cli"
 			}
@@ -380,7 +399,7 @@ func hookVerdict(s hookScenario, o hookObs) (string, string) {
 					if first[tok] < lastUp {
 						return fmt.Sprintf("%s ran before up of %s completed", tok, cn), "c14-up-order"
 					}
-					if last[tok] > first[cn+".down"] {
+					if count[cn+".down"] > 0 && last[tok] > first[cn+".down"] {
 						return fmt.Sprintf("%s ran after down of %s", tok, cn), "c14-down-order"
 					}
 				}
@@ -408,7 +427,7 @@ func hookVerdict(s hookScenario, o hookObs) (string, string) {
 			if count[cn+h] > 0 && first[cn+h] < lastUp {
 				return fmt.Sprintf("%s%s ran before up completed", cn, h), "c14-up-order"
 			}
-			if count[cn+h] > 0 && last[cn+h] > first[cn+".down"] {
+			if count[cn+h] > 0 && count[cn+".down"] > 0 && last[cn+h] > first[cn+".down"] {
 				return fmt.Sprintf("%s%s ran after down", cn, h), "c14-down-order"
 			}
 		}
@@ -474,6 +493,20 @@ func genHookScenarios(tier string, rng *rand.Rand) []hookScenario {
 			}
 		}
 	}
+	// several contexts in use, one of them without down commands: the others are still shut down, each once
+	for _, via := range []string{"runner", "sched", "cli"} {
+		for rep := 0; rep < 4; rep++ {
+			for nd := 0; nd < 4; nd++ {
+				noDown := make([]bool, 4)
+				noDown[nd] = true
+				var ts []hookTask
+				for c := 0; c < 4; c++ {
+					ts = append(ts, hookTask{ctx: c, cond: 'n'})
+				}
+				out = append(out, hookScenario{upFail: make([]bool, 4), noDown: noDown, via: via, par: rep%2 == 0, tasks: ts})
+			}
+		}
+	}
 	// a task that fails when its commands are compiled (after the context's before hook has run): the context's
 	// after hook still runs exactly once for it
 	for _, via := range []string{"runner", "sched", "cli"} {
@@ -512,6 +545,10 @@ func genHookScenarios(tier string, rng *rand.Rand) []hookScenario {
 		}
 		for c := range s.upFail {
 			s.upFail[c] = rng.Intn(5) == 0
+		}
+		if nc >= 2 && rng.Intn(2) == 0 {
+			s.noDown = make([]bool, nc)
+			s.noDown[rng.Intn(nc)] = true
 		}
 		if rng.Intn(2) == 0 {
 			s.upCmds = make([][]bool, nc)
@@ -575,6 +612,9 @@ func runC14(col *Collector, tier string, seed int64) {
 				if strings.HasPrefix(tok, fmt.Sprintf("c%d.", c)) {
 					n[tok[strings.Index(tok, ".")+1:]]++
 				}
+			}
+			if s.noDown != nil && s.noDown[c] && n["down"] == 0 && n["up"] > 0 {
+				n["down"] = 1 // an empty down list: the model's single down step happened, it just ran no command
 			}
 			parts = append(parts, fmt.Sprintf("c%d:up=%d,before=%d,after=%d,down=%d", c, n["up"], n["before"], n["after"], n["down"]))
 		}
